@@ -2,7 +2,7 @@
    Triangulation.volume, simplex_volume_in_embedding (Heron and
    Cayley-Menger branches) -- gen/Prims.v. *)
 From Coq Require Import Reals Lra Psatz.
-From AV Require Import Model.PrimsBase Proofs.PrimsLemmas Proofs.PrimsGeom.
+From AV Require Import Model.PrimsBase Model.PrimsSpec Proofs.PrimsLemmas Proofs.PrimsGeom.
 From AVGen Require Import Prims.
 Local Open Scope R_scope.
 
@@ -173,25 +173,12 @@ Lemma nd_volume3_mirror : forall ax ay az bx b_y bz cx cy cz dx dy dz,
 Proof. intros; rewrite !nd_volume3_spec; vol_eq. Qed.
 
 (* ---- simplex_volume_in_embedding ---- *)
-(* squared area of the triangle a b c in R^3: |(b-a) x (c-a)|^2 / 4 *)
-Definition tri_area2_3 (a0 a1 a2 b0 b1 b2 c0 c1 c2 : R) : R :=
-  (sq (det2 (b1 - a1) (b2 - a2) (c1 - a1) (c2 - a2))
-   + sq (det2 (b2 - a2) (b0 - a0) (c2 - a2) (c0 - a0))
-   + sq (det2 (b0 - a0) (b1 - a1) (c0 - a0) (c1 - a1))) / 4.
-
 Lemma tri_area2_3_nonneg : forall a0 a1 a2 b0 b1 b2 c0 c1 c2, 0 <= tri_area2_3 a0 a1 a2 b0 b1 b2 c0 c1 c2.
 Proof.
   intros; unfold tri_area2_3, sq.
   match goal with |- 0 <= (?a * ?a + ?b * ?b + ?c * ?c) / 4 =>
     generalize a, b, c; intros; nra end.
 Qed.
-
-(* squared area of a triangle in R^4: Gram determinant / 4 *)
-Definition dot4 (u0 u1 u2 u3 v0 v1 v2 v3 : R) : R := u0 * v0 + u1 * v1 + u2 * v2 + u3 * v3.
-Definition tri_area2_4 (a0 a1 a2 a3 b0 b1 b2 b3 c0 c1 c2 c3 : R) : R :=
-  (dot4 (b0 - a0) (b1 - a1) (b2 - a2) (b3 - a3) (b0 - a0) (b1 - a1) (b2 - a2) (b3 - a3)
-   * dot4 (c0 - a0) (c1 - a1) (c2 - a2) (c3 - a3) (c0 - a0) (c1 - a1) (c2 - a2) (c3 - a3)
-   - sq (dot4 (b0 - a0) (b1 - a1) (b2 - a2) (b3 - a3) (c0 - a0) (c1 - a1) (c2 - a2) (c3 - a3))) / 4.
 
 Lemma sum6sq_nonneg a b c d e f : 0 <= (a * a + b * b + c * c + d * d + e * e + f * f) / 4.
 Proof. nra. Qed.
@@ -256,12 +243,6 @@ Proof.
 Qed.
 
 (* Heron branch: three vertices in the plane *)
-Lemma heron_poly : forall a b c, let s := (1 / 2) * (a + b + c) in
-  s * (s - a) * (s - b) * (s - c)
-  = (2 * (a * a) * (b * b) + 2 * (b * b) * (c * c) + 2 * (c * c) * (a * a)
-     - (a * a) * (a * a) - (b * b) * (b * b) - (c * c) * (c * c)) / 16.
-Proof. intros; unfold s; field. Qed.
-
 Lemma sve_heron_spec : forall ax ay bx b_y cx cy,
   sve_heron ax ay bx b_y cx cy = Rabs (det2 (bx - ax) (b_y - ay) (cx - ax) (cy - ay)) / 2.
 Proof.
